@@ -305,7 +305,7 @@ func programs(thorough bool) []program {
 	// one wrong share present, a full valid pool, a full pool holding a wrong (well-formed) share,
 	// a full pool holding a malformed share
 	preShare := []int{16}
-	for _, pre := range [][]int{preShare, {2}, {0, 1}, {2, 1}, {3, 1}} {
+	for _, pre := range [][]int{preShare, {2}, {0, 1}, {2, 1}, {3, 1}, {wrongLengthOp, 22}} {
 		for i := 0; i < A; i++ {
 			for j := i; j < A; j++ {
 				add(pre, []int{i}, []int{j})
@@ -318,6 +318,12 @@ func programs(thorough bool) []program {
 			for j := 0; j < A; j++ {
 				add(pre, []int{b}, []int{j})
 			}
+		}
+	}
+	// a share of the wrong length against every operation of the alphabet
+	for _, pre := range [][]int{nil, {22}} {
+		for j := 0; j < A; j++ {
+			add(pre, []int{wrongLengthOp}, []int{j})
 		}
 	}
 	// three threads, one operation each
@@ -391,6 +397,19 @@ func init() {
 }
 
 var boundaryOps = []int{17, 18, 19, 20}
+
+// op 21: a share of the wrong length (TrustedAdd does not look at it; reconstruction must refuse it
+// and leave the pool as it is)
+var wrongLengthOp = 21
+
+func init() {
+	ops = append(ops, trustedAdd("TrustedAdd(2,47-bytes)", 2, func(f *fixture) []byte { return f.valid[2][:47] }))
+	// op 22: pre-history helper. Reconstruction walks the share MAP and stops at the first share of
+	// the wrong length, so a pool mixing usable and wrong-length shares would make the number of
+	// executed statements depend on Go's map iteration order (not owned by the scheduler): the
+	// wrong-length pre-states hold wrong-length shares only.
+	ops = append(ops, trustedAdd("TrustedAdd(1,47-bytes)", 1, func(f *fixture) []byte { return f.valid[1][:47] }))
+}
 
 // ---------------------------------------------------------------- linearizability
 
@@ -738,7 +757,7 @@ func main() {
 	run.Set("max_schedules_per_program", me)
 	run.Set("distinct_outcomes_total", totalOutcomes)
 	run.Set("programs_with_more_than_one_outcome", multi)
-	run.Set("rule", "program = sequential pre-history + 2-3 threads with 1-2 operations each over the 14-operation alphabet (all unordered pairs from 6 pre-states: empty, one valid share, one wrong share, full valid pool, full pool with a wrong well-formed share, full pool with a malformed share; each of the 4 boundary-index operations (index n) against every operation; all unordered triples; all 2x2 programs over the 8 core operations) on ONE shared real participant object (n=3,t=1); for each program ALL schedules with at most `preemption_bound` preemptions (per program class) over scheduling points = every Lock/RLock/Unlock/RUnlock of the object's RWMutex (modelled blocking) + every statement of bls_thresholdsign.go methods; each complete schedule yields a call/return history (plus a final sequential observer) that must be linearizable w.r.t. the sequential reference model; <= t+1 shares retained. executions = schedules run; distinct_nontrivial = programs; states = complete executions (stateless search).")
+	run.Set("rule", "program = sequential pre-history + 2-3 threads with 1-2 operations each over the 14-operation alphabet (all unordered pairs from 6 pre-states: empty, one valid share, one wrong share, full valid pool, full pool with a wrong well-formed share, full pool with a malformed share, full pool with a share of the wrong length; each of the 4 boundary-index operations (index n) against every operation; all unordered triples; all 2x2 programs over the 8 core operations) on ONE shared real participant object (n=3,t=1); for each program ALL schedules with at most `preemption_bound` preemptions (per program class) over scheduling points = every Lock/RLock/Unlock/RUnlock of the object's RWMutex (modelled blocking) + every statement of bls_thresholdsign.go methods; each complete schedule yields a call/return history (plus a final sequential observer) that must be linearizable w.r.t. the sequential reference model; <= t+1 shares retained. executions = schedules run; distinct_nontrivial = programs; states = complete executions (stateless search).")
 	run.Assume("sequentially consistent interleavings at statement granularity of the instrumented Go file; calls into BLS Sign/Verify and C are atomic steps", "RWMutex modelled without writer preference (superset of lock-acquisition orders)", "n=3, t=1, one message/tag; validity of shares decided by byte equality with the library-made shares (threshold arithmetic itself is C06's business)")
 	run.Finish()
 }
